@@ -582,6 +582,8 @@ class ConfigParser(object):
     species_a, species_b = tokens
     species_a = species_a.strip()
     species_b = species_b.strip()
+    if not species_a or not species_b:
+      raise ConfigParserException("Invalid species pair '{}': a species label is missing (keys should be of the form 'SPECIES_A-SPECIES_B')".format(k))
     return  SpeciesTuple(species_a, species_b)
 
 
@@ -611,6 +613,8 @@ class ConfigParser(object):
       from_species, to_species = tokens
       from_species = from_species.strip()
       to_species = to_species.strip()
+      if not from_species or not to_species:
+        raise ConfigParserException("invalid key '{}' (a species label is missing)".format(k))
       return  EAMFSDensitySpeciesTuple(from_species, to_species)
 
     try:
